@@ -197,3 +197,82 @@ Theorem C18_shared_submodule_refuted :
   realised_names cfg_fixed w_submod_two_keys = map (prefix "root") (first_keys w_submod_two_keys).
 Proof. exact shared_submodule_refuted. Qed.
 Print Assumptions C18_shared_submodule_refuted.
+
+(* ------------------------------------------------------------------------------------------------
+   Name collisions.  Two DIFFERENT Parameter objects can be realised under one qualified initializer
+   name (a shared Parameter / Module object keeps the name of its first registration; explicit names
+   that coincide after qualification).  As read, `root.graph.initializers[name] = self` silently replaces
+   the earlier one: a weight is lost.  With the repair (proposed_fixes/ready/C18_05_*: Parameter._realize
+   raises ValueError) the call fails instead.  `call_result raises_on_collision cf t` models both variants;
+   the harness probes which one the code is in (the flag is not a field of `cfg`). *)
+
+(* both variants in terms of `collision_free` (names of the effective realisations pairwise different) *)
+Theorem C18_call_result_spec : forall cf t,
+  call_result false cf t = Returned (init_dict cf t) /\
+  returns (call_result true cf t) = collision_free cf t /\
+  (collision_free cf t = true -> call_result true cf t = Returned (init_dict cf t)) /\
+  (collision_free cf t = false -> exists n, call_result true cf t = Raised n /\ In n (realised_names cf t)).
+Proof. exact call_result_spec. Qed.
+Print Assumptions C18_call_result_spec.
+
+(* REPAIRED behaviour: whenever the call returns, every Parameter object of the tree is an initializer
+   exactly once, under pairwise different names -- for EVERY object graph (any names, Parameter objects
+   and sub-modules shared; only "a ModuleList carries no parameters of its own" is assumed).
+   Not covered: that the names are the state_dict keys (false under sharing, see above). *)
+Theorem C18_collision_check_fixed : forall cf t d, lp_okb t = true ->
+  call_result true cf t = Returned d ->
+  d = init_dict cf t /\ NoDup (map fst d) /\ map snd d = distinct_ids t /\ NoDup (distinct_ids t) /\
+  List.length d = List.length (distinct_ids t) /\
+  (forall i, In i (param_ids t) <-> In i (map snd d)) /\
+  map fst d = realised_names cf t.
+Proof. exact collision_check_fixed. Qed.
+Print Assumptions C18_collision_check_fixed.
+
+(* hypotheses satisfiable: legal weight tying (11 registrations of 6 objects) returns with the check on;
+   so does a tree outside the hypotheses of the sharing theorems *)
+Example C18_collision_check_fixed_satisfiable :
+  call_result true cfg_fixed (construct cfg_fixed (ex_shared (Some "model"))) =
+  Returned [("model.scale", 0); ("model.layers.0.w", 1); ("model.layers.0.mlp.0.weight", 2);
+            ("model.layers.0.mlp.2.weight", 3); ("model.head.weight", 4); ("model.tail.weight", 5)] /\
+  lp_okb (construct cfg_fixed (ex_shared (Some "model"))) = true /\
+  List.length (sd_keys (construct cfg_fixed (ex_shared (Some "model")))) = 11.
+Proof. exact ex_shared_returns_checked. Qed.
+Example C18_collision_check_fixed_outside_hypotheses :
+  tree_sh_okb cfg_fixed w_submod_misnamed = false /\
+  call_result true cfg_fixed w_submod_misnamed = Returned [("root.y.a.w", 0)] /\
+  distinct_ids w_submod_misnamed = [0].
+Proof. exact ex_misnamed_returns_checked. Qed.
+
+(* AS READ the statement is false: the call returns with fewer initializers than Parameter objects.
+   Witnesses (replayed on the real code by the harness): a shared Parameter realised under the name of a
+   sibling (C18:naming:shared-parameter-name-collision), a shared sub-module called first under another key
+   next to a module of that name (C18:naming:shared-submodule), two explicit names that coincide. *)
+Theorem C18_silent_loss_refuted :
+  lp_okb w_collide_shared = true /\ distinct_ids w_collide_shared = [2; 1] /\
+  call_result false cfg_fixed w_collide_shared = Returned [("root.b.bias", 1)] /\
+  call_result true cfg_fixed w_collide_shared = Raised "root.b.bias" /\
+  lp_okb w_collide_submod = true /\ distinct_ids w_collide_submod = [1; 0] /\
+  call_result false cfg_fixed w_collide_submod = Returned [("root.y.a.w", 0)] /\
+  call_result true cfg_fixed w_collide_submod = Raised "root.y.a.w" /\
+  distinct_ids w_collide_explicit = [0; 1] /\
+  call_result false cfg_pinned w_collide_explicit = Returned [("root.w", 1)] /\
+  call_result true cfg_pinned w_collide_explicit = Raised "root.w".
+Proof. exact silent_loss_refuted. Qed.
+Print Assumptions C18_silent_loss_refuted.
+
+(* the repair does not touch the positive theorems: under their hypotheses (with or without sharing) no
+   two objects get one name, the check never fires, both variants return `init_dict` *)
+Theorem C18_check_never_fires_tree : forall cf t, tree_sh_hyps cf t ->
+  forall chk, call_result chk cf t = Returned (init_dict cf t).
+Proof. exact check_never_fires_tree. Qed.
+Print Assumptions C18_check_never_fires_tree.
+
+Theorem C18_check_never_fires : forall cf s, program_sh_okb cf s = true ->
+  forall chk, call_result chk cf (construct cf s) = Returned (init_dict cf (construct cf s)).
+Proof. exact check_never_fires. Qed.
+Print Assumptions C18_check_never_fires.
+
+Theorem C18_check_never_fires_okb : forall cf s, program_okb cf s = true ->
+  forall chk, call_result chk cf (construct cf s) = Returned (init_dict cf (construct cf s)).
+Proof. exact check_never_fires_okb. Qed.
+Print Assumptions C18_check_never_fires_okb.
